@@ -209,7 +209,7 @@ pub fn run(args: &Args) {
     let nshards = args.get_u64("nshards", 1);
     let thorough = args.get("tier") == Some("thorough");
     let max_len = args.get_u64("max-len", 300) as usize;
-    let reps = args.get_u64("reps", if thorough { 400 } else { 30 });
+    let reps = args.get_u64("reps", if thorough { 2000 } else { 150 });
     let replay = args.kv.get("replay").map(|s| crate::parse_u64(s));
     crate::engine::install_quiet_panic_hook();
     let mut c = Counters::default();
